@@ -270,7 +270,7 @@ def random_utf8(rng):
 
 def gen_text(rng, lib_paths=(), std=True, exports=None):
     """-> (class, text)"""
-    k = rng.weighted([("generated", 7), ("simple", 4), ("corpus", 3), ("mutated_generated", 3), ("mutated_corpus", 2), ("random", 2), ("empty", 1)])
+    k = rng.weighted([("generated", 14), ("simple", 8), ("corpus", 6), ("mutated_generated", 6), ("mutated_corpus", 4), ("random", 4), ("empty", 2), ("big", 1)])
     if k == "generated":
         return k, gen_program(rng, lib_paths, std)
     if k == "simple":
@@ -285,6 +285,11 @@ def gen_text(rng, lib_paths=(), std=True, exports=None):
         return k, mutate(rng, rng.choice(c) if c else gen_program(rng, lib_paths, std))
     if k == "random":
         return k, random_utf8(rng)
+    if k == "big":
+        # a document well beyond one pipe buffer (64 KiB), valid or broken at the very end
+        unit = gen_simple(rng, lib_paths, exports).replace("let ", "let big@_")
+        parts = [unit.replace("@", str(i)) for i in range(max(2, 70000 // max(1, len(unit))))]
+        return k, "".join(parts)[:90000] + (rng.choice(["", "let x = ;", "\"unterminated"]))
     return k, rng.choice(["", "\n", " ", "\r\n\r\n", "//"])
 
 
